@@ -69,51 +69,122 @@ Section Exec.
   Variable W : world.
   Hypothesis Hvt : safe vt.
 
+  (* one lemma per operation (kept separate: each is checked on its own) *)
+  Lemma ex_mk : forall t e h h' r, exec vt W (OMk t) e h = (h', r) -> kept h h'.
+  Proof.
+    intros t e h h' r H. unfold exec in H. destruct (build_x e t h) as [h1 v] eqn:Eb. inversion H; subst.
+    apply grows_kept. eapply build_x_grows; eauto.
+  Qed.
+
+  Lemma ex_construct : forall c kw e h h' r, exec vt W (OConstruct c kw) e h = (h', r) -> kept h h'.
+  Proof. intros c kw e h h' r H. unfold exec in H. apply grows_kept. eapply run_grows; eauto. Qed.
+
+  Lemma ex_bundle : forall c args kw e h h' r, exec vt W (OBundle c args kw) e h = (h', r) -> kept h h'.
+  Proof. intros c args kw e h h' r H. unfold exec in H. apply grows_kept. eapply bundle_grows; eauto. Qed.
+
+  Lemma ex_parse : forall a ver ac e h h' r, exec vt W (OParse a ver ac) e h = (h', r) -> kept h h'.
+  Proof.
+    intros a ver ac e h h' r H. unfold exec, bindv in H. destruct (get_dict (env_get e a) h) as [h0 r0] eqn:Eg.
+    assert (G := get_dict_grows _ _ _ _ Eg). apply grows_kept.
+    destruct r0; try (inversion H; subst; auto; fail).
+    eapply grows_trans; [exact G | eapply run_grows; eauto].
+  Qed.
+
+  Lemma ex_parse_obs : forall a vr ver ac e h h' r, exec vt W (OParseObs a vr ver ac) e h = (h', r) -> kept h h'.
+  Proof. intros a vr ver ac e h h' r H. unfold exec in H. apply grows_kept. eapply run_grows; eauto. Qed.
+
+  Lemma ex_deepcopy : forall a e h h' r, exec vt W (ODeepcopy a) e h = (h', r) -> kept h h'.
+  Proof. intros a e h h' r H. unfold exec in H. apply grows_kept. eapply deepcopy_grows; eauto. Qed.
+
+  Lemma ex_new_version : forall a kw e h h' r, exec vt W (ONewVersion a kw) e h = (h', r) -> kept h h'.
+  Proof. intros a kw e h h' r H. unfold exec in H. apply grows_kept. eapply new_version_grows; eauto. Qed.
+
+  Lemma ex_revoke : forall a e h h' r, exec vt W (ORevoke a) e h = (h', r) -> kept h h'.
+  Proof. intros a e h h' r H. unfold exec in H. apply grows_kept. eapply revoke_grows; eauto. Qed.
+
+  Lemma ex_expand : forall a e h h' r, exec vt W (OExpand a) e h = (h', r) -> kept h h'.
+  Proof. intros a e h h' r H. unfold exec in H. apply grows_kept. eapply expand_markings_grows; eauto. Qed.
+
+  Lemma ex_compress : forall a e h h' r, exec vt W (OCompress a) e h = (h', r) -> kept h h'.
+  Proof. intros a e h h' r H. unfold exec in H. apply grows_kept. eapply compress_markings_grows; eauto. Qed.
+
+  Lemma ex_gadd : forall a m s e h h' r, exec vt W (OGranularAdd a m s) e h = (h', r) -> kept h h'.
+  Proof. intros a m s e h h' r H. unfold exec in H. apply grows_kept. eapply granular_add_grows; eauto. Qed.
+
+  Lemma ex_gclear : forall a s e h h' r, exec vt W (OGranularClear a s) e h = (h', r) -> kept h h'.
+  Proof. intros a s e h h' r H. unfold exec in H. apply grows_kept. eapply granular_clear_grows; eauto. Qed.
+
+  Lemma ex_oadd : forall a m e h h' r, exec vt W (OObjectAdd a m) e h = (h', r) -> kept h h'.
+  Proof. intros a m e h h' r H. unfold exec in H. apply grows_kept. eapply object_add_grows; eauto. Qed.
+
+  Lemma ex_oremove : forall a m e h h' r, exec vt W (OObjectRemove a m) e h = (h', r) -> kept h h'.
+  Proof. intros a m e h h' r H. unfold exec in H. apply grows_kept. eapply object_remove_grows; eauto. Qed.
+
+  Lemma ex_oclear : forall a e h h' r, exec vt W (OObjectClear a) e h = (h', r) -> kept h h'.
+  Proof. intros a e h h' r H. unfold exec in H. apply grows_kept. eapply object_clear_grows; eauto. Qed.
+
+  Lemma ex_fnew : forall kw la e h h' r, exec vt W (OFactoryNew kw la) e h = (h', r) -> kept h h'.
+  Proof. intros kw la e h h' r H. unfold exec in H. apply grows_kept. eapply factory_new_grows; eauto. Qed.
+
+  Lemma ex_fcreate : forall f c kw e h h' r, exec vt W (OFactoryCreate f c kw) e h = (h', r) -> kept h h'.
+  Proof.
+    intros f c kw e h h' r H. unfold exec in H. apply grows_kept. destruct kw as [i|].
+    - eapply factory_create_grows; eauto.
+    - destruct (alloc h (NDict [])) as [h1 l] eqn:Ea.
+      eapply grows_trans; [eapply alloc_grows; eauto | eapply factory_create_grows; eauto].
+  Qed.
+
+  Lemma ex_store_new : forall data e h h' r, exec vt W (OStoreNew data) e h = (h', r) -> kept h h'.
+  Proof.
+    intros data e h h' r H. unfold exec in H. destruct (store_new h) as [h1 s] eqn:Es.
+    assert (K1 : kept h h1) by (apply grows_kept; eapply store_new_grows; eauto).
+    destruct data as [i|]; [|inversion H; subst; auto].
+    destruct (store_data h1 (VR s)) as [d|] eqn:Ed; [|inversion H; subst; auto].
+    destruct (truthy h1 (env_get e i)); [|inversion H; subst; auto].
+    unfold bindv in H. destruct (store_add_top vt W d (env_get e i) h1) as [h2 r2] eqn:Ea.
+    destruct (store_data_table _ _ _ Ed) as (m & Em).
+    assert (K2 : kept h1 h2) by (eapply same_but_kept; [eapply store_add_top_same_but; eauto | eauto]).
+    eapply kept_trans; [exact K1|]. destruct r2; inversion H; subst; auto.
+  Qed.
+
+  Lemma ex_store_add : forall s a e h h' r, exec vt W (OStoreAdd s a) e h = (h', r) -> kept h h'.
+  Proof.
+    intros s a e h h' r H. unfold exec in H.
+    destruct (store_data h (env_get e s)) as [d|] eqn:Ed; [|inversion H; apply kept_refl].
+    destruct (store_data_table _ _ _ Ed) as (m & Em).
+    eapply same_but_kept; [eapply store_add_top_same_but; eauto | eauto].
+  Qed.
+
+  Lemma ex_store_get : forall s id e h h' r, exec vt W (OStoreGet s id) e h = (h', r) -> kept h h'.
+  Proof.
+    intros s id e h h' r H. unfold exec in H.
+    destruct (store_data h (env_get e s)) as [d|] eqn:Ed; [|inversion H; apply kept_refl].
+    apply store_get_same in H. subst. apply kept_refl.
+  Qed.
+
+  Lemma ex_setattr : forall a name e h h' r, setattr_allowed name = false ->
+    exec vt W (OSetattr a name) e h = (h', r) -> kept h h'.
+  Proof.
+    intros a name e h h' r Hp H. unfold exec in H.
+    destruct (setattr_heap_same _ _ _ _ _ _ Hp H) as [-> _]. apply kept_refl.
+  Qed.
+
+  Lemma ex_setitem : forall a e h h' r, exec vt W (OSetitem a) e h = (h', r) -> kept h h'.
+  Proof.
+    intros a e h h' r H. unfold exec, py_setitem_obj in H.
+    destruct (is_obj h (env_get e a)); inversion H; apply kept_refl.
+  Qed.
+
   Lemma exec_kept : forall o e h h' r, public_op o = true -> exec vt W o e h = (h', r) -> kept h h'.
   Proof.
-    intros o e h h' r Hp H. destruct o; simpl in H.
-    - (* OMk *) destruct (build_x e t h) as [h1 v] eqn:Eb. inversion H; subst.
-      apply grows_kept. eapply build_x_grows; eauto.
-    - apply grows_kept. eapply run_grows; eauto.
-    - apply grows_kept. eapply bundle_grows; eauto.
-    - (* OParse *) unfold bindv in H. destruct (get_dict (env_get e a) h) as [h0 r0] eqn:Eg.
-      assert (G := get_dict_grows _ _ _ _ Eg). apply grows_kept.
-      destruct r0; try (inversion H; subst; auto; fail).
-      eapply grows_trans; [exact G | eapply run_grows; eauto].
-    - apply grows_kept. eapply run_grows; eauto.
-    - apply grows_kept. eapply deepcopy_grows; eauto.
-    - apply grows_kept. eapply new_version_grows; eauto.
-    - apply grows_kept. eapply revoke_grows; eauto.
-    - apply grows_kept. eapply expand_markings_grows; eauto.
-    - apply grows_kept. eapply compress_markings_grows; eauto.
-    - apply grows_kept. eapply granular_add_grows; eauto.
-    - apply grows_kept. eapply granular_clear_grows; eauto.
-    - apply grows_kept. eapply object_add_grows; eauto.
-    - apply grows_kept. eapply object_remove_grows; eauto.
-    - apply grows_kept. eapply object_clear_grows; eauto.
-    - apply grows_kept. eapply factory_new_grows; eauto.
-    - (* OFactoryCreate *) apply grows_kept. destruct kw as [i|].
-      + eapply factory_create_grows; eauto.
-      + destruct (alloc h (NDict [])) as [h1 l] eqn:Ea.
-        eapply grows_trans; [eapply alloc_grows; eauto | eapply factory_create_grows; eauto].
-    - (* OStoreNew *) destruct (store_new h) as [h1 s] eqn:Es.
-      assert (K1 : kept h h1) by (apply grows_kept; eapply store_new_grows; eauto).
-      destruct data as [i|]; [|inversion H; subst; auto].
-      destruct (store_data h1 (VR s)) as [d|] eqn:Ed; [|inversion H; subst; auto].
-      destruct (truthy h1 (env_get e i)); [|inversion H; subst; auto].
-      unfold bindv in H. destruct (store_add vt W FUEL d (env_get e i) h1) as [h2 r2] eqn:Ea.
-      destruct (store_data_table _ _ _ Ed) as (m & Em).
-      assert (K2 : kept h1 h2) by (eapply same_but_kept; [eapply store_add_same_but; eauto | eauto]).
-      eapply kept_trans; [exact K1|]. destruct r2; inversion H; subst; auto.
-    - (* OStoreAdd *) destruct (store_data h (env_get e s)) as [d|] eqn:Ed; [|inversion H; apply kept_refl].
-      destruct (store_data_table _ _ _ Ed) as (m & Em).
-      eapply same_but_kept; [eapply store_add_same_but; eauto | eauto].
-    - (* OStoreGet *) destruct (store_data h (env_get e s)) as [d|] eqn:Ed; [|inversion H; apply kept_refl].
-      apply store_get_same in H. subst. apply kept_refl.
-    - (* OSetattr *) simpl in Hp. apply negb_true_iff in Hp.
-      destruct (setattr_heap_same _ _ _ _ _ _ Hp H) as [-> _]. apply kept_refl.
+    intros o e h h' r Hp. destruct o.
+    - apply ex_mk. - apply ex_construct. - apply ex_bundle. - apply ex_parse. - apply ex_parse_obs.
+    - apply ex_deepcopy. - apply ex_new_version. - apply ex_revoke. - apply ex_expand. - apply ex_compress.
+    - apply ex_gadd. - apply ex_gclear. - apply ex_oadd. - apply ex_oremove. - apply ex_oclear.
+    - apply ex_fnew. - apply ex_fcreate. - apply ex_store_new. - apply ex_store_add. - apply ex_store_get.
+    - apply ex_setattr. simpl in Hp. now apply negb_true_iff in Hp.
     - discriminate.
-    - (* OSetitem *) unfold py_setitem_obj in H. destruct (is_obj h (env_get e a)); inversion H; apply kept_refl.
+    - apply ex_setitem.
   Qed.
 
   (* histories: any sequence of public operations *)
